@@ -64,6 +64,8 @@ def has_delete(c):
 
 
 def case_cost(case):
+    if case.get("mode") == "cd":
+        return 60
     return 40 if case.get("max_preempt", 1) >= 2 else 1
 
 
@@ -97,6 +99,13 @@ def enumerate_cases(tier):
         for inst in (None, [0, 1]):
             yield dict(BASE, start_name="different-documents:" + name, start=start, calls=[a, b], mode="enum", max_preempt=1,
                        instances=inst, family="different-documents")
+    if tier == "thorough":
+        # conflict-directed enumeration: every schedule with <=3 preemptions up to commutation of independent steps
+        for sname in STARTS:
+            for a, b in itertools.combinations_with_replacement(range(len(MENU)), 2):
+                for first in (0, 1):
+                    yield dict(BASE, start_name=sname, start=STARTS[sname], calls=[MENU[a], MENU[b]], mode="cd", max_preempt=3,
+                               firsts=[first], family="conflict-directed")
     for sname in STARTS:
         for a, b in itertools.combinations_with_replacement(range(len(MENU)), 2):
             two = tier == "thorough" or (has_delete(MENU[a]) and has_delete(MENU[b]))
@@ -191,6 +200,19 @@ def run_case(case, ctx):
         if confl and n > 30:
             ctx.sample({"start": case["start_name"], "program": [conc.op_pattern(c, world) for c in calls], "schedules_explored": n,
                         "max_preemptions": case.get("max_preempt", 1)})
+    elif case["mode"] == "cd":
+        n = 0
+        stats = {}
+        for order, pre, ex, stats in conc.conflict_directed_schedules(world, calls, max_preempt=case.get("max_preempt", 3),
+                                                                      firsts=tuple(case.get("firsts", (0, 1)))):
+            ctx.count()
+            n += 1
+            judge(ctx, world, case, calls, order, pre, ex)
+            if pre and confl:
+                ctx.nontrivial([case["start_name"], "cd", [conc.op_pattern(c, world) + str(c.get("d")) for c in calls], order, pre, ex.outcomes])
+        ctx.classify("conflict-directed-programs")
+        ctx.classify("conflict-directed-schedules", n)
+        ctx.classify("conflict-directed: positions pruned as independent", stats.get("pruned", 0))
     elif case["mode"] == "triple":
         for a in case["holds"]:
             pre = c07.hwp_preemptions(a)
